@@ -160,6 +160,7 @@ func main() {
 		incon                                    []string
 		violLines, knownLines                    []string
 		engineErr                                []string
+		controlHit                               = map[string]bool{}
 	)
 	exit := 0
 	for i, b := range batches {
@@ -183,14 +184,12 @@ func main() {
 			paths += o.Paths
 			key := b.Name + "/" + o.Harness + "/" + o.ID
 			if isControl[o.Harness] {
-				if strings.HasPrefix(o.ID, "reach:") {
-					continue
-				}
+				// a negative control is detected when at least one of its assertions is found
+				// violated and confirmed natively (controls may contain auxiliary true assertions)
 				if o.Status == "violated" {
-					controlsOK++
-				} else {
-					controlsBad++
-					engineErr = append(engineErr, "negative control not detected: "+key+" status="+o.Status)
+					controlHit[b.Name+"/"+o.Harness] = true
+				} else if _, seen := controlHit[b.Name+"/"+o.Harness]; !seen {
+					controlHit[b.Name+"/"+o.Harness] = false
 				}
 				continue
 			}
@@ -231,6 +230,14 @@ func main() {
 					engineErr = append(engineErr, key+": "+o.Reason)
 				}
 			}
+		}
+	}
+	for name, hit := range controlHit {
+		if hit {
+			controlsOK++
+		} else {
+			controlsBad++
+			engineErr = append(engineErr, "negative control not detected: "+name)
 		}
 	}
 	sort.Strings(knownLines)
